@@ -337,3 +337,137 @@ def shrink(ctx, lines, engine, oracle, budget=120):
             cur = cand
         i -= 1
     return cur
+
+
+# ---------------------------------------------------------------- the shared check body (C08, C09)
+def spec_of(model_line):
+    """the driver prints the Map output, or 'SPECDIFF map=<..> spec=<..>' when the two models differ"""
+    if model_line is not None and model_line.startswith("SPECDIFF map=<"):
+        i = model_line.find("> spec=<")
+        return model_line[14:i], model_line[i + 8:-1]
+    return model_line, model_line
+
+
+def run_pair(ctx, sub, args, engine="mem"):
+    """harness + model on one generated (or replayed) case set -> dict(dir, order, cases, impl, model_map, model_spec)"""
+    d = run_datasim(ctx, sub, args + " -engine " + engine)
+    rc, out, _ = sh("%s < cases.tsv > model.out" % vlib.modelrun_path("Data"), cwd=d, timeout=1500)
+    if rc != 0:
+        log("MODEL RUN FAILED:\n" + out[-2000:])
+        raise SystemExit(2)
+    order, cases = parse_cases(os.path.join(d, "cases.tsv"))
+    impl, _ = vlib.read_out(os.path.join(d, "impl.out"))
+    mraw, _ = vlib.read_out(os.path.join(d, "model.out"))
+    mmap, mspec = {}, {}
+    for k, v in mraw.items():
+        mmap[k], mspec[k] = spec_of(v)
+    return dict(dir=d, order=order, cases=cases, impl=impl, map=mmap, spec=mspec, engine=engine)
+
+
+def plan(ctx):
+    """(sub, datasim args, engine) for the tier"""
+    quick = ctx.tier == "quick"
+    seed = ctx.seed
+    runs = []
+    if quick:
+        runs.append(("rand-mem", "-seed %d -n 1300 -len 40 -types khszl -policy mix" % seed, "mem"))
+        runs.append(("rand-pebble", "-seed %d -n 250 -len 40 -types khszl -policy mix" % (seed + 7919), "pebble"))
+        runs.append(("exh2", "-exh 2 -types khszl -policy local", "mem"))
+    else:
+        runs.append(("rand-mem", "-seed %d -n 12000 -len 60 -types khszl -policy mix" % seed, "mem"))
+        runs.append(("rand-mem-long", "-seed %d -n 1500 -len 300 -types khszl -policy mix" % (seed + 31), "mem"))
+        runs.append(("rand-pebble", "-seed %d -n 5000 -len 60 -types khszl -policy mix" % (seed + 7919), "pebble"))
+        runs.append(("rand-rocksdb", "-seed %d -n 1500 -len 60 -types khszl -policy mix" % (seed + 104729), "rocksdb"))
+        runs.append(("exh3-local", "-exh 3 -types hszl -policy local", "mem"))
+        runs.append(("exh3-compact", "-exh 3 -types hsz -policy compact", "mem"))
+    return runs
+
+
+def corpus_lines(prop_dirs):
+    lines = []
+    for pd in prop_dirs:
+        d = os.path.join(vlib.VERIF, "corpus", pd)
+        if not os.path.isdir(d):
+            continue
+        for fn in sorted(os.listdir(d)):
+            if fn.endswith(".tsv"):
+                lines += [l.rstrip("\n") for l in open(os.path.join(d, fn)) if l.strip()]
+    return lines
+
+
+def prepare(ctx, prop, targets):
+    """build harness, regenerate constants, re-check proofs, build the extracted model"""
+    build_harness()
+    vlib.regen_consts("Data", BINNAME)
+    proofs_ok, info = ctx.check_proofs(make_targets=targets + ["Properties/%s.vo" % prop],
+                                       gate_paths=["Data", "Common", "Properties/%s" % prop])
+    mok, mout, _ = vlib.model_build("Data")
+    if not mok:
+        log("MODEL BUILD FAILED:\n" + mout[-3000:])
+        raise SystemExit(2)
+    return proofs_ok
+
+
+def all_runs(ctx, corpus_dirs):
+    """corpus first, then the tier's plan (or only the replay)"""
+    res = []
+    if ctx.replay:
+        import json
+        rp = json.load(open(ctx.replay))
+        lines = (rp.get("case") or {}).get("cases_tsv") or rp.get("cases_tsv") or []
+        p = os.path.join(ctx.run_dir, "replay_in.tsv")
+        with open(p, "w") as f:
+            f.write("\n".join(lines) + "\n")
+        eng = (rp.get("case") or {}).get("engine", "mem")
+        res.append(run_pair(ctx, "replay", "-replay " + p, eng))
+        return res
+    cl = corpus_lines(corpus_dirs)
+    if cl:
+        p = os.path.join(ctx.run_dir, "corpus_in.tsv")
+        with open(p, "w") as f:
+            f.write("\n".join(cl) + "\n")
+        res.append(run_pair(ctx, "corpus", "-replay " + p, "mem"))
+    for sub, args, eng in plan(ctx):
+        res.append(run_pair(ctx, sub, args, eng))
+    return res
+
+
+def mismatches_of(r):
+    """impl vs Map model"""
+    mm = []
+    for cid in r["order"]:
+        if r["impl"].get(cid) != r["map"].get(cid):
+            mm.append((r["dir"].split("/")[-1] + ":" + cid, r["impl"].get(cid), r["map"].get(cid)))
+    return mm
+
+
+def histogram(runs):
+    h = {}
+    for r in runs:
+        for cid in r["order"]:
+            c = r["cases"][cid]
+            if c[0] == "W":
+                a = args_of(c[4])
+                nm = a[0].decode("latin1").lower() if a else "?"
+                h[nm] = h.get(nm, 0) + 1
+                if has_dup_args(c):
+                    h["(repeated argument)"] = h.get("(repeated argument)", 0) + 1
+                if c[1] != "0":
+                    h["(grouped:%s)" % c[2]] = h.get("(grouped:%s)" % c[2], 0) + 1
+                if r["impl"].get(cid) == "-err":
+                    h["(error reply)"] = h.get("(error reply)", 0) + 1
+            elif c[0] == "R":
+                h["(reads)"] = h.get("(reads)", 0) + 1
+            elif c[0] == "S":
+                h["(sequences:%s:%s)" % (r["engine"], c[1])] = h.get("(sequences:%s:%s)" % (r["engine"], c[1]), 0) + 1
+    return h
+
+
+def shrunk_case(ctx, r, cid, oracle):
+    """the sequence up to cid, shrunk while oracle still fails; returns the case lines"""
+    seq = cid.split(".")[0]
+    lines = seq_lines(r["order"], r["cases"], seq, upto=cid)
+    try:
+        return shrink(ctx, lines, r["engine"], oracle, budget=80)
+    except Exception:
+        return lines
